@@ -352,10 +352,11 @@ def Src.ok : Src α → Bool
   | .other _ => true
 
 /-- the image the property says `load(path, delimiter=delim)` returns for a file from this source
-(`none`: the property does not say): a saved image read with the default or with `","`; a delimited file
-read with the default, or with the delimiter it uses throughout -/
+(`none`: the property does not say): a saved image read with the default call (which delimiter `save`
+writes is its own business: the property speaks of reading back, not of the bytes); a delimited file read
+with the default, or with the delimiter it uses throughout -/
 def Src.image? (delim : Option Char) : Src α → Option (List (List α))
-  | .saved _ img => if delim = none ∨ delim = some ',' then some img else none
+  | .saved _ img => if delim = none then some img else none
   | .delimited seps img =>
     match delim with
     | none => some img
@@ -720,5 +721,50 @@ def readBlock (body : List (Word α)) (offset : Nat) : Option (Nat × List α) :
         mapOpt (fun w => match w with | .val a => some a | .len _ => none) ws |>.map fun vs => (n, vs)
       else none
     | _ => none
+
+/-! ## VTK: the appended section byte by byte
+
+`fp.write(np.uint64(n))` writes the 8 bytes of `n` in the machine's byte order, `fp.write(a.ravel("F"))` the 8
+bytes of every float64 in the machine's byte order; the header names that order (`byte_order`).  The bytes of
+a float64 value are opaque here (`enc`, lowest byte first). -/
+
+/-- the 8 bytes of an unsigned 64-bit number, lowest first -/
+def le64 (n : Nat) : List Nat := (List.range 8).map fun i => n / 256 ^ i % 256
+
+/-- the number whose bytes, lowest first, these are -/
+def ofLe64 : List Nat → Nat
+  | [] => 0
+  | b :: bs => b + 256 * ofLe64 bs
+
+/-- the bytes written for one 8-byte word on a little-endian (`little`) or big-endian machine -/
+def wordBytes (little : Bool) (enc : α → List Nat) : Word α → List Nat
+  | .len n => if little then le64 n else (le64 n).reverse
+  | .val a => if little then enc a else (enc a).reverse
+
+def bodyBytes (little : Bool) (enc : α → List Nat) (ws : List (Word α)) : List Nat := ws.flatMap (wordBytes little enc)
+
+/-- `"LittleEndian" if sys.byteorder == "little" else "BigEndian"` -/
+def endianName (little : Bool) : Str := if little then "LittleEndian".toList else "BigEndian".toList
+
+/-- a reader: the UInt64 at byte offset `o`, in the byte order the header declares -/
+def readU64 (little : Bool) (bytes : List Nat) (o : Nat) : Option Nat :=
+  let b := (bytes.drop o).take 8
+  if b.length = 8 then some (ofLe64 (if little then b else b.reverse)) else none
+
+/-- `n` groups of 8 bytes -/
+def groups8 : Nat → List Nat → List (List Nat)
+  | 0, _ => []
+  | n + 1, bs => bs.take 8 :: groups8 n (bs.drop 8)
+
+/-- what a reader does with a declared offset into the appended bytes: the byte count found there, then that many
+bytes as 8-byte values (each delivered lowest byte first) -/
+def readBlockBytes (little : Bool) (bytes : List Nat) (o : Nat) : Option (Nat × List (List Nat)) :=
+  match readU64 little bytes o with
+  | none => none
+  | some n =>
+    let body := (bytes.drop (o + 8)).take n
+    if n % 8 = 0 ∧ body.length = n then
+      some (n, (groups8 (n / 8) body).map fun g => if little then g else g.reverse)
+    else none
 
 end Pew.Export
